@@ -1,5 +1,5 @@
 """Shared driver for the property "the library has no memory" (spec/Hist.tla): TLC checks Memoryless over all histories of
-two (thorough: three) calls, HistGen exports histories, harness/cmd/histreplay replays a seeded sample on the real library -
+two calls, HistGen exports histories, harness/cmd/histreplay replays a seeded sample on the real library -
 one fresh process per history, every call compared with the same call made alone in a fresh ordinary process. A check
 reports the finding kinds it owns:
   compile, text, resolve -> C13    installed -> C08    flags -> C10    nnp -> C11    getinfo, table -> C12    parse -> C14    dump -> note
@@ -12,7 +12,7 @@ import vlib
 
 MC_CFG = "CONSTANTS\n  MaxCalls = %d\n  Dev = %s\nSPECIFICATION Spec\nINVARIANTS Memoryless%s\nCHECK_DEADLOCK FALSE\n"
 GEN_CFG = ("CONSTANTS\n  MaxCalls = 0\n  Dev = {}\n  OutFile = \"%s\"\n  Stride = %d\n  Offset = %d\n  Triples = TRUE\nSPECIFICATION Spec\nCHECK_DEADLOCK FALSE\n")
-OPS = {"C13": {"compile", "text", "resolve", "dump"}, "C08": {"load"}, "C10": {"load"}, "C11": {"load"}, "C12": {"getinfo", "table", "resolve"}, "C14": {"parse", "text"}}
+OPS = {"C13": {"compile", "recompile", "text", "resolve", "dump"}, "C08": {"load"}, "C10": {"load"}, "C11": {"load"}, "C12": {"getinfo", "table", "resolve"}, "C14": {"parse", "text"}}
 OWNS = {"C13": {"compile", "text", "resolve"}, "C08": {"installed"}, "C10": {"flags"}, "C11": {"nnp"}, "C12": {"getinfo", "table"}, "C14": {"parse"}}
 
 
@@ -25,7 +25,7 @@ def run(ctx, n=None):
     bindir = ctx.harness()
     out = ctx.path("hist_cases.json")
     stride = 8 if th else 16
-    jobs = [mc_job(3 if th else 2), dict(module="HistGen", cfg=GEN_CFG % (out, stride, ctx.seed % stride), name="HistGen", workers=1, timeout=3000)]
+    jobs = [mc_job(2), dict(module="HistGen", cfg=GEN_CFG % (out, stride, ctx.seed % stride), name="HistGen", workers=1, timeout=3000)]
     res = ctx.tlc_many(jobs, parallel=2)
     if res[0]["violated"]:
         raise vlib.Machinery("TLC: %s violated in Hist: the specification of the unchanged design does not satisfy its own invariant" % res[0]["violated"])
@@ -43,7 +43,7 @@ def run(ctx, n=None):
     json.dump(picked, open(sample, "w"))
     bare = os.path.dirname(ctx.path("hist_bare", "x")) if os.geteuid() == 0 else ""
     find = ctx.path("hist_findings.ndjson")
-    rc, o, e = ctx.run([os.path.join(bindir, "histreplay"), "-in", sample, "-out", find] + (["-bare", bare] if bare else []), timeout=3000)
+    rc, o, e = ctx.run([os.path.join(bindir, "histreplay"), "-in", sample, "-out", find] + (["-bare", bare] if bare else []) + (["-blockseccomp"] if os.uname().machine == "x86_64" else []), timeout=3000)
     if rc != 0:
         raise vlib.Machinery("histreplay failed: " + e[-1500:])
     s = json.loads(o.strip().splitlines()[-1])
@@ -52,6 +52,7 @@ def run(ctx, n=None):
     ctx.cov["evaluations"] += s["calls"]
     ctx.cov["traces_validated_against_impl"] += s["histories"] - s["children_failed"]
     ctx.cov["memoryless_histories"] = {"exported": len(hists), "replayed": s["histories"], "in_a_process_without_a_file_system": s["histories_in_a_process_without_a_file_system"],
+                                      "in_a_process_whose_seccomp_call_is_answered_ENOSYS": s["histories_in_a_process_whose_seccomp_call_is_answered_ENOSYS"],
                                       "calls": s["calls"], "distinct_calls": s["distinct_calls"], "loads": s["loads"], "findings_by_kind": s["findings"]}
     other = {k: v for k, v in s["findings"].items() if k not in OWNS[ctx.pid] and k != "dump"}
     if other:
